@@ -50,6 +50,10 @@ TRun ==
                ELSE Ev.len_train = Ev.max_iter /\ Ev.nan_from = Ev.iteration + 1)
      /\ Chk("model_state_consistent_with_position",
             \A j \in 1..Len(Ev.state_vals) : FClose(Ev.state_vals[j], Ev.recomputed_vals[j], "1e-5", "1e-5"))
+     \* (-(n_train / n_validation * log-likelihood + log-prior) of the validation model)
+     /\ Chk("recorded_validation_loss_is_the_validation_models_loss_at_the_recorded_position",
+            /\ Len(Ev.loss_validation_recomputed) = Len(rec)
+            /\ \A j \in 1..Len(rec) : FClose(rec[j], Ev.loss_validation_recomputed[j], "1e-4", "1e-4"))
      /\ Chk("one_batch_record_per_iteration", Len(Ev.batches) = Ev.iteration)
      /\ \A t \in 1..Len(Ev.batches) :
           Chk("batches_partition_floor_n_over_size_observations",
